@@ -4,6 +4,6 @@ From ZV Require Import Scan.Consts Scan.Model.
 Extraction Language OCaml.
 Extraction "model.ml" Z.of_N N.of_nat Nat.add
   build_scan_key_range build_specific_range get_data_store_type
-  iterate_keys iterate_coll merged_keys mini_compile real_decode_scan_cursor real_encode_mcursor scan_node_sep
+  iterate_keys iterate_coll iterate_fullscan merged_keys mini_compile real_decode_scan_cursor real_encode_mcursor scan_node_sep
   encode_meta_key coll_key size_key is_sorted mem_key count_missing
   hash_type set_type zset_type kv_type hsize_type ssize_type zsize_type lmeta_type.
